@@ -239,4 +239,14 @@ where
 def liveInv (s : CS) : Bool :=
   fwdInv s && liveCfg s && cls s != 0 && (cls s == 1 || atBoundary s)
 
+/-- what the end of the clean-up has achieved (carried along the rounds next to `liveInv`, needed for `terminalOK`): once the
+    BatchRelease has completed (`mu ≤ 12`: classes 26, 27, 29, 30, 40) the CloneSet is released — no partition, not paused, no
+    owner — and once the rollout has left `Finalising` (`mu ≤ 1`: classes 30, 40) it is recorded as succeeded -/
+def doneInv (s : CS) : Bool :=
+  match s.wl with
+  | none => true
+  | some w =>
+    (decide (12 < mu s) || (w.partition.isNone && !w.paused && w.owner == .none)) &&
+    (decide (1 < mu s) || s.ro.succeeded == some true)
+
 end RV.Oracle.ClosedLoop
